@@ -16,22 +16,23 @@ import (
 )
 
 type Obligation struct {
-	Name    string // <pkg>.<func>/<label>
-	Func    string
-	Label   string
-	Kind    string // ensures | no_panic | loop_init | loop_preserved | lemma | cover | requires_sat
-	Path    int
-	Hyps    []*Term
-	Goal    *Term
-	Bounded bool
-	Props   []string
-	Trace   []string
-	Notes   []string
-	Prelude string // extra SMT text (lemma files)
-	RawSMT  string // complete query (lemmas)
-	WantSat bool   // cover / vacuity queries: success means sat
-	PathSt  *State // the symbolic path the obligation belongs to (for replay)
-	Fn      *ssa.Function
+	Name      string // <pkg>.<func>/<label>
+	Func      string
+	Label     string
+	Kind      string // ensures | no_panic | loop_init | loop_preserved | lemma | cover | requires_sat
+	Path      int
+	Hyps      []*Term
+	Goal      *Term
+	ExtraDecl []*Term // terms whose symbols must be declared too (model queries)
+	Bounded   bool
+	Props     []string
+	Trace     []string
+	Notes     []string
+	Prelude   string // extra SMT text (lemma files)
+	RawSMT    string // complete query (lemmas)
+	WantSat   bool   // cover / vacuity queries: success means sat
+	PathSt    *State // the symbolic path the obligation belongs to (for replay)
+	Fn        *ssa.Function
 
 	Status string // discharged | refuted | undecided | covered | vacuous
 	Solver string
@@ -48,6 +49,7 @@ func (o *Obligation) smt(withModel bool) string {
 	b.WriteString("(set-option :produce-models true)\n(set-logic ALL)\n")
 	all := append([]*Term(nil), o.Hyps...)
 	all = append(all, o.Goal)
+	all = append(all, o.ExtraDecl...)
 	b.WriteString(o.Prelude)
 	b.WriteString(declsFor(all, nil))
 	for _, h := range o.Hyps {
